@@ -43,6 +43,27 @@ checks = {
  "C06": dict(engine="E", tech=E + " on a virtual clock",
    text="every probe of the grid (random bytes of every length 0..120 and large, every truncation <50 of a valid stream, every single-bit flip of a valid 3-chunk stream, replays) x 4 ciphers x key-list sizes x client behaviours {keep open, FIN, more data at T/2} runs through the real handler; the reference model decides whether it authenticates; oracle: zero bytes written, no dial, close exactly at min(client close, t0+59s) by FIN, AddProbe bytes = bytes sent; post-authentication invalid streams are never actively closed",
    note="virtual time (exact instants, no wall clock); quick tier samples one bit per byte for ciphers 2-4"),
+ "C09": dict(engine="E", tech=E,
+   text="the real server (package main, started through RunOutlineServer on vnet) is booted with every 3rd (every) configuration of a ~4300-element space (1-2 services x listener sets x ordered key lists with duplicated (cipher, secret) pairs and shared keys x legacy per-port keys, both formats mixed); then every (listener, key of the universe) pair is probed with a real TCP connection / UDP datagram; expectation (authenticates iff the (cipher, secret) belongs to the owner, first configured ID) is computed from the configuration alone",
+   note="key universe of 5 keys + 1 foreign key, 6 ports; the harness is injected into package main through the build overlay and uses only RunOutlineServer / newPrometheusServerMetrics / Stop"),
+ "C10": dict(engine="Q", tech=Q + " with fault enumeration",
+   text="all 18^2 (18^3) reload sequences after booting configuration A over: five valid configurations (shared addresses/keys, dropped keys, format switch) and every failure stage (missing file, malformed YAML, three validation errors, bad cipher in service 0 / service 1 / a legacy key, the 1st..4th listener or the legacy UDP socket unbindable); reloads go through the real SIGHUP path; after every step the bound sockets, the C09 authentication matrix and the number of live server threads are compared with the last configuration that loaded; after Stop nothing is bound and nothing runs",
+   note="bind failures are injected in vnet for addresses the running configuration does not already hold (a shared address is not bound again)"),
+ "C11": dict(engine="S", tech=S,
+   text="every schedule within the deviation bound of: a reload (real SIGHUP path) racing a new TCP client and a UDP client on a retained address, with a connection opened before the reload (idle after handshake / mid-transfer / half-closed with a late target) that finishes afterwards; one and two consecutive reloads; invariant at every scheduling decision: the retained TCP and UDP addresses are bound; end oracle: no dial refused, each connection opened exactly once, retained-key clients authenticated and served, pre-existing connection intact",
+   note="deviation bound 1 (2); a handler whose context is cancelled before it dialed its target may end ERR_CONNECT (documented open outcome)"),
+ "C12": dict(engine="S", tech=S,
+   text="every schedule within the bound of two handles on one address (stream and packet), user threads accepting/reading until error, closer threads closing at an arbitrary moment and calling once more, a connector/sender; variants: both close, one drains and is never closed (nothing may be lost), re-acquisition racing the released generation; oracle: no duplicate, no loss, closed-network error after Close, socket released, no thread left, undeliverable accepted connections closed",
+   note="deviation bound 2 (3); handles are acquired before the threads start (the listen/close race itself is C13)"),
+ "C17": dict(engine="Q+S", tech=Q + " on a virtual clock; " + S,
+   text="all 13^5 (13^6) sequences (plus 8^4 (8^5) around an empty key ID) over TCP open+authenticate/close and UDP add/remove for (client IP, key) pairs, unauthenticated connections, clock ticks and scrapes on the real Prometheus serviceMetrics; after every scrape the reported seconds per key and per location are compared with the union of open intervals; scrape racing traffic, ticks and another scrape with the clock read as a scheduling point",
+   note="deviation bound 2 (4) for the concurrent units"),
+ "C19": dict(engine="S", tech=S + " with a vector-clock happens-before race monitor and a linearizability check (porcupine; sequential specification = the implementation run sequentially)",
+   text="key list {Snapshot || MarkUsed || Update}, replay history {Add || Add || Add || Resize}, the association table under datagrams/replies/expiry/shutdown, shared listeners (C12 scenarios) and collectors (C17 concurrent scenarios): every schedule (unbounded for the small components, deviation-bounded otherwise) is executed with every instrumented field/map/list access checked for an unordered conflicting pair, and the recorded call/return histories checked for linearizability",
+   note="the monitor sees fields of structs declared in the repository, maps reached through them and container/list objects; slices, captured locals and third-party internals are outside it"),
+ "C20": dict(engine="E+Q", tech=E + "; " + Q,
+   text="GetIPInfoFromAddr/GetIPInfoFromIP over 24 hosts of every class x 4 address forms, zoned, names, malformed, nil x 4 database behaviours with a recording fake database against the decision table (incl. database not consulted for XA/XL/disabled); all 35^2 (35^3) sequences x 3 database modes of traffic operations from distinctive client addresses through the real collectors, the text exposition scanned after every operation for address material, unknown label names and port-valued samples",
+   note="exposure is checked at the collector API (the seam every handler reports through)"),
  "C13": dict(engine="S", tech=S,
    text="every schedule of 2- and 3-thread listen/close programs on the real ListenerManager within a deviation bound is executed; deadlock = no enabled thread with an unfinished caller (wait-for cycle extracted); the manager is re-used afterwards",
    note="bounded: <=3 user threads, <=4 operations each, 2 addresses; deviation bound 2 (2 threads) / 1 (3 threads) quick, 3 / 2 thorough"),
